@@ -671,7 +671,8 @@ func checkFresh(t ev.T, test string, c FreshCase) {
 	}
 	// signs of life of the holder: completion of the time stamp of the lock directory (acquisition) and of each heart-beat
 	var smu sync.Mutex
-	var signs []time.Time
+	type sign struct{ visible, stamp time.Time }
+	var signs []sign
 	// the first removal of the holder's lock directory by somebody else is the verdict that counts: whatever the other
 	// contenders obtain afterwards (a free lock ...) is its consequence, not a verdict of their own
 	var removedBy string
@@ -679,14 +680,16 @@ func checkFresh(t ev.T, test string, c FreshCase) {
 	beganOf := map[string]time.Time{} // per contender: when its current call began
 	box.Backend.After = func(op *fsx.Op) {
 		if op.Client == "holder" && op.Kind == "chtimes" && op.Err == "" && strings.HasPrefix(op.Path, lockDir) {
-			// a sign of life is as old as the stamp it carries: on a stalling machine the holder may be held up between reading
-			// the clock and setting the stamp, which observers then see as old as it says
+			// a sign of life is as old as the stamp it carries (on a stalling machine the holder may be held up between reading
+			// the clock and setting the stamp, which observers then see as old as it says), and it is there for observers to see
+			// from the completion of the operation only: a call that began between the two may have been served the older stamp
 			at := time.Unix(0, op.End)
-			if st := time.Unix(0, op.ModTime); op.ModTime != 0 && st.Before(at) {
-				at = st
+			st := at
+			if x := time.Unix(0, op.ModTime); op.ModTime != 0 && x.Before(at) {
+				st = x
 			}
 			smu.Lock()
-			signs = append(signs, at)
+			signs = append(signs, sign{visible: at, stamp: st})
 			smu.Unlock()
 		}
 		if op.Client != "holder" && (op.Kind == "remove" || op.Kind == "removeall") && op.Path == lockDir && op.Err == "" {
@@ -702,8 +705,8 @@ func checkFresh(t ev.T, test string, c FreshCase) {
 		defer smu.Unlock()
 		r := fallback
 		for _, s := range signs {
-			if !s.After(x) && s.After(r) {
-				r = s
+			if !s.visible.After(x) && s.stamp.After(r) {
+				r = s.stamp
 			}
 		}
 		return r
